@@ -99,6 +99,20 @@ fn iff_cases() -> Vec<IffCase> {
             out.push(IffCase { op: cfg.op(), leaves: cfg.leaves([tr & 1 == 1, tr & 2 == 2, tr & 4 == 4]) });
         }
     }
+    // value-dependent shortcuts: every case again with each operand in turn holding only zeros / only ones
+    let base = out.clone();
+    for c in base.iter().filter(|c| c.leaves.iter().map(|l| l.vals.len()).sum::<usize>() <= 24) {
+        for which in 0..c.leaves.len() {
+            for v in [0.0, 1.0] {
+                if matches!(c.op, Ln | Recip | Div | Powf(_)) && v == 0.0 {
+                    continue;
+                }
+                let mut z = c.clone();
+                z.leaves[which].vals = vec![v; z.leaves[which].vals.len()];
+                out.push(z);
+            }
+        }
+    }
     for cfg in conv_cfgs(3, 2, 2, &[1, 2], &[1, 2], &[vec![], vec![2]]) {
         for tr in 0..4 {
             out.push(IffCase { op: cfg.op(), leaves: cfg.leaves([tr & 1 == 1, tr & 2 == 2]) });
